@@ -3,19 +3,23 @@ import struct
 from common import *
 
 RULE = ("0-40 entries with offsets/addends over the full field width, symbol < 2^24 (ELF32) / < 2^32 (ELF64), type < 2^8 / < 2^32, "
-        "REL and RELA, 4 configurations; read back by index (and index = count, count+1, 2^32-1), set_entry at random and at every "
+        "REL and RELA, 4 configurations, e_machine unset / 0 / 3 / 8 (MIPS) / 20 / 21 / 40 / 43 / 62 / 183 / 243 / random, entry size = the entry structure or larger by 1-16 bytes; read back by index (and index = count, count+1, 2^32-1), set_entry at random and at every "
         "index with the rest of the table re-read, swap_symbols applied twice; section bytes compared with the ABI packing. "
         "Non-trivial = at least 3 entries and at least one set_entry or swap.")
 ASSUMPTIONS = ["symbol < 2^24 and type < 2^8 in ELF32 (ABI packing widths)", "section size below 2^32 / 2^61"]
-KEEP_PREFIX = 6
+KEEP_PREFIX = 7
 
 
 def meta_from_lines(lines):
-    ops, cfg, rela = [], ("32", "lsb"), False
+    ops, cfg, rela, es, machine = [], ("32", "lsb"), False, None, None
     for l in lines:
         t = l.split()
         if t[0] == "create":
             cfg = (t[1], t[2])
+        elif t[0] == "hdr" and t[1] == "machine":
+            machine = int(t[2])
+        elif t[0] == "secset" and t[2] == "entsize":
+            es = int(t[3])
         elif t[0] == "secset" and t[2] == "type":
             rela = int(t[3]) == 4
         elif t[0] == "reladd":
@@ -30,17 +34,26 @@ def meta_from_lines(lines):
             ops.append(("num",))
         elif t[0] == "getdata":
             ops.append(("data",))
-    return {"ops": ops, "cfg": cfg, "rela": rela}
+    nat = (12 if rela else 8) if cfg[0] == "32" else (24 if rela else 16)
+    return {"ops": ops, "cfg": cfg, "rela": rela, "pad": max((es or nat) - nat, 0), "machine": machine}
 
 
-def mk_case(cid, cfg, rela, ops):
+PADBYTE = 0xEE
+
+
+def mk_case(cid, cfg, rela, ops, pad=0, machine=None):
+    """[pad]: the table's entry size exceeds the entry structure by [pad] bytes (each added entry is followed by
+    that many filler bytes, so that entry i sits at i * sh_entsize); [machine]: e_machine of the object"""
     c32 = cfg[0] == "32"
-    es = (12 if rela else 8) if c32 else (24 if rela else 16)
-    lines = ["ctor plain", "create %s %s" % cfg, "addsec " + hx(b".rel"), "secset 2 type %d" % (4 if rela else 9),
+    es = ((12 if rela else 8) if c32 else (24 if rela else 16)) + pad
+    lines = ["ctor plain", "create %s %s" % cfg] + (["hdr machine %d" % machine] if machine is not None else []) + \
+            ["addsec " + hx(b".rel"), "secset 2 type %d" % (4 if rela else 9),
              "secset 2 entsize %d" % es, "secset 2 link 0"]
     for o in ops:
         if o[0] == "add":
             lines.append("reladd 2 %d %d %d %d %d" % (1 if rela else 0, o[1], o[2], o[3], o[4]))
+            if pad:
+                lines.append("dapp 2 " + hx(bytes([PADBYTE]) * pad))
         elif o[0] == "get":
             lines.append("relget 2 %d" % o[1])
         elif o[0] == "set":
@@ -114,6 +127,7 @@ def oracle(case, impl):
                     else:
                         info = ((sym << 32) + (typ & 0xffffffff)) % 2**64
                         exp += struct.pack(e + "QQ", off, info) + (struct.pack(e + "Q", add) if rela else b"")
+                    exp += bytes([PADBYTE]) * case.meta.get("pad", 0)
                 if d != exp:
                     fails.append("encoding: section bytes differ from the ABI packing of the table")
     except StopIteration:
@@ -171,14 +185,20 @@ def generate(rng, tier):
             for _ in range(rng.randint(0, 6)):
                 ops.append(("set", rng.randint(0, k + 1)) + rentry(rng, c32))
         ops.append(("data",))
-        cases.append(mk_case("r%d" % i, cfg, rela, ops))
+        # every e_machine the library has special knowledge of or might (the packing is the same for all), and
+        # tables whose entry size is larger than the entry structure
+        machine = rng.choice([None, None, 0, 3, 8, 8, 10, 20, 21, 40, 43, 62, 183, 243, rng.randrange(0, 2**16)])
+        pad = rng.choice([0, 0, 0, 4, 8, 16, 1])
+        cases.append(mk_case("r%d" % i, cfg, rela, ops, pad=pad, machine=machine))
     return cases
 
 
 def distribution(cases):
-    d = {"entries": 0, "rela_cases": 0, "sets": 0, "swaps": 0, "max_symbol": 0}
+    d = {"entries": 0, "rela_cases": 0, "sets": 0, "swaps": 0, "max_symbol": 0, "padded_entry_tables": 0, "machines": {}}
     for c in cases:
         d["rela_cases"] += c.meta["rela"]
+        d["padded_entry_tables"] += 1 if c.meta.get("pad") else 0
+        d["machines"][str(c.meta.get("machine"))] = d["machines"].get(str(c.meta.get("machine")), 0) + 1
         for o in c.meta["ops"]:
             if o[0] == "add":
                 d["entries"] += 1; d["max_symbol"] = max(d["max_symbol"], o[2])
